@@ -136,7 +136,14 @@ async fn fsm_case(delay_open: bool, hold: u16, ap: &str, steps: &str) -> String 
         };
         let mut out = vec![];
         while let Ok(m) = out_rx.try_recv() {
-            out.push(match m { BgpMsg::Open(_) => "open".to_string(), BgpMsg::Keepalive(_) => "keepalive".to_string(),
+            out.push(match m { BgpMsg::Open(o) => {
+                                   // what the OPEN this side sent advertises: the four-octet capability and the ADD-PATH families with directions
+                                   let mut aps: Vec<String> = guard(std::panic::AssertUnwindSafe(|| o.addpath_families_vec())).map(|r| match r {
+                                       Ok(v) => v.iter().map(|(f, d)| format!("{}:{}", fam_s(*f), u8::from(*d))).collect(),
+                                       Err(_) => vec!["E".to_string()] }).unwrap_or(vec!["PANIC".to_string()]);
+                                   aps.sort();
+                                   format!("open[4={};ap={}]", o.four_octet_capable() as u8, aps.join(",")) }
+                               BgpMsg::Keepalive(_) => "keepalive".to_string(),
                                BgpMsg::Notification(n) => { let r = n.details().raw(); format!("notif:{}.{}", r[0], r[1]) }
                                BgpMsg::Update(_) => "update".to_string(), BgpMsg::RouteRefresh(_) => "rr".to_string() });
         }
